@@ -50,11 +50,18 @@ def batch_vectors(rng, quick):
     kinds = ["G", "WK", "WM", "TR", "TS", "GB", "TO", "ZS"]
     vecs = [[a] for a in kinds] + [[a, b] for a in kinds for b in kinds]
     vecs += [[a, b, c] for a in kinds for b in kinds for c in kinds if (a == "G") + (b == "G") + (c == "G") >= 2]
+    # compensated pairs: two good signatures whose S halves are shifted by +d / -d
+    vecs += [["K1", "K2"], ["K2", "K1"], ["G", "K1", "K2"], ["K1", "G", "K2"], ["K1", "K2", "G"], ["K1", "G", "G", "K2"],
+             ["K1", "K2", "WK"], ["K1", "G"], ["K1"]]
     for _ in range(40 if quick else 400):
         n = rng.randint(4, 9)
         v = ["G"] * n
-        if rng.random() < 0.7:
+        r = rng.random()
+        if r < 0.6:
             v[rng.randrange(n)] = rng.choice(kinds)
+        elif r < 0.8:
+            i, j = rng.sample(range(n), 2)
+            v[i], v[j] = "K1", "K2"
         vecs.append(v)
     return [{"kinds": v} for v in vecs]
 
@@ -245,6 +252,7 @@ def run_C01(ctx, args):
         wit[t] = (lambda t: lambda c: typ(c) == t)(t)
     wit["two inputs"] = lambda c: len(c["ins"]) == 2
     wit["huge amount"] = lambda c: any(o["amt"]["h"] > 0 for o in c["outs"])
+    wit["word boundary (2^63 / 2^127 units)"] = lambda c: any(o["amt"]["w"] > 0 or o["amt"]["v"] > 0 for o in c["outs"])
     wit["near capacity"] = lambda c: any(i["amt"]["c"] > 0 for i in c["ins"])
     non_vacuity(ctx, rows, wit)
     events = harness(ctx, "C01", cases, {"gbits": 300 + (ctx.seed * 7919) % 1700})
